@@ -11,4 +11,4 @@ for p in $(python3 -c "import json; print(' '.join(c['property_id'] for c in jso
   if [ -n "$out" ]; then echo "[$p] $out"; n=$((n+1)); fi
 done
 echo "alarms: $n"
-cd /repo && git checkout -- . && git status --short | head -3
+cd /repo && git checkout -- . && git clean -fdq && git status --short | head -3
